@@ -361,32 +361,43 @@ def r_reg_fresh(ck: Checker) -> None:
                 ck.violation("R-REG-FRESH", f, st, what, evaluations=len(oks), construct=f"{q}: {REG}[{k}] stored without a freshness proof on some path")
     # the unique-id helper returns only a key that is not registered
     h = ck.repo.func(NODE, "_get_next_unique_id")
-    loops = [s for s in h.node.body if isinstance(s, ast.While)]
-    rets = [s for s in walk_body(h.node.body) if isinstance(s, ast.Return)]
-    what = "_get_next_unique_id loops while its candidate is registered and returns that candidate"
-    ok = False
-    if len(loops) == 1 and len(rets) == 1 and isinstance(rets[0].value, ast.Name) and not loops[0].orelse \
-            and not any(isinstance(x, (ast.Break, ast.Return)) for x in walk_body(loops[0].body)):
-        v = rets[0].value.id
-        t = loops[0].test
-        cj = _conjuncts(t, True)
-        if len(cj) == 1:
-            c, pol = cj[0]
-            if isinstance(c, ast.Compare) and len(c.ops) == 1:
-                op, l, r = c.ops[0], c.left, c.comparators[0]
-                if isinstance(op, (ast.In, ast.NotIn)) and dotted(r) == REG and norm(l) == v and (isinstance(op, ast.In) == pol):
-                    ok = True
-                if isinstance(op, (ast.Is, ast.IsNot)) and is_none(r) and norm(l) in (f"{REG}.get({v})", f"{REG}.get({v}, None)") \
-                        and (isinstance(op, ast.IsNot) == pol):
-                    ok = True
-        # the candidate is re-assigned inside the loop
-        if ok and not any(isinstance(x, ast.Assign) and dotted(x.targets[0]) == v for x in walk_body(loops[0].body)):
-            ok = False
+    from ..facts import facts_in
+    what = "_get_next_unique_id returns only an id that is proven not to be registered (tested with `in` / `get(..) is None` on every path to the return)"
+    fs = facts_in(h.node)
+    rets = [s for s in walk_body(h.node.body) if isinstance(s, ast.Return) and s.value is not None]
     n += 1
-    if ok:
-        ck.holds("R-REG-FRESH", h, loops[0], what)
-    else:
+    verdicts = []
+    for r in rets:
+        v = r.value
+        if isinstance(v, ast.Call) and dotted(v.func) == "next" and v.args and isinstance(v.args[0], ast.GeneratorExp) and len(v.args[0].generators) == 1 \
+                and len(v.args) == 1:
+            g = v.args[0].generators[0]
+            elt = norm(v.args[0].elt)
+            tests = [canon_cmp(c) for c in g.ifs if isinstance(c, ast.Compare)]
+            if elt == norm(g.target) and (f"in({elt},{REG})", False) in [t for t in tests if t] or (k_none(f"{REG}.get({elt})"), True) in [t for t in tests if t]:
+                verdicts.append("proven")  # the first element of the stream that is not registered
+                continue
+            verdicts.append("unknown")
+            continue
+        vt = norm(v)
+        states = fs.at.get(id(r), [])
+        proven = bool(states) and all((f"in({vt},{REG})", False) in st_ or (k_none(f"{REG}.get({vt})"), True) in st_ or (k_none(f"{REG}.get({vt}, None)"), True) in st_ for st_ in states)
+        if proven:
+            verdicts.append("proven")
+        elif states and any((f"{REG}.get({vt})", False) in st_ for st_ in states):
+            verdicts.append("truthiness")
+        elif not any(vt in k for st_ in states for k, _ in st_ if REG in k):
+            verdicts.append("untested")
+        else:
+            verdicts.append("unknown")
+    if rets and all(x == "proven" for x in verdicts):
+        ck.holds("R-REG-FRESH", h, h.node, what, evaluations=len(rets))
+    elif "truthiness" in verdicts:
+        ck.violation("R-REG-FRESH", h, h.node, what, construct="_get_next_unique_id: freshness is tested by the truthiness of the registered node (a falsy node counts as free)")
+    elif "untested" in verdicts or not rets:
         ck.violation("R-REG-FRESH", h, h.node, what, construct="_get_next_unique_id: loop condition does not establish freshness of the returned id")
+    else:
+        raise Unsupported("_get_next_unique_id: freshness of the returned id could not be established", h.node)
     if n < 4:
         ck.incomplete("R-REG-FRESH", None, None, f"only {n} store sites (4 expected)")
 
